@@ -364,8 +364,8 @@ MUTANTS += [
     dict(id="c04-revert-args-trailing-comma-fix", props=["C04"], file=PARSE,
          old="                stream.next_token()\n                stream.expect_peek_not(TokenType.RPAREN, \"unexpected trailing comma\")\n\n            stream.next_token()\n\n        return FunctionExtension(", new="                stream.next_token()\n\n            stream.next_token()\n\n        return FunctionExtension("),
     dict(id="c04-revert-slice-typestate-fix", props=["C04"], file=PARSE,
-         old="        # A step can only follow a second colon.\n        if stream.current.type_ == TokenType.COLON:\n            stream.next_token()\n\n            # 1 or ?\n            if _maybe_index(stream.current):\n                step = int(stream.current.value)\n                stream.next_token()\n",
-         new="        if stream.current.type_ == TokenType.COLON:\n            stream.next_token()\n\n        if _maybe_index(stream.current):\n            step = int(stream.current.value)\n            stream.next_token()\n"),
+         old="        # A step can only follow a second colon.\n        if stream.current.type_ == TokenType.COLON:\n            stream.next_token()\n\n            # 1 or ?\n            if _maybe_index(stream.current):\n                step = self._parse_index(stream.current)\n                stream.next_token()\n",
+         new="        if stream.current.type_ == TokenType.COLON:\n            stream.next_token()\n\n        if _maybe_index(stream.current):\n            step = self._parse_index(stream.current)\n            stream.next_token()\n"),
     dict(id="c04-revert-paren-comparand-fix", props=["C04"], file=PARSE,
          old="        if self.BINARY_OPERATORS.get(stream.peek.type_) in self.COMPARISON_OPERATORS:\n            raise JSONPathSyntaxError(\n                \"parenthesized expressions are not comparable\", token=stream.peek\n            )\n\n        return expr", new="        return expr"),
     dict(id="c04-selection-trailing-comma", props=["C04"], file=PARSE,
@@ -577,7 +577,7 @@ MUTANTS += [
     dict(id="c01-parse-selectors-deduplicated", props=["C01"], file=PARSE,
          old="            return tuple(self.parse_bracketed_selection(stream))", new="            return tuple(dict.fromkeys(self.parse_bracketed_selection(stream)))"),
     dict(id="c01-parse-index-abs", props=["C01", "C07"], file=PARSE,
-         old="                            index=int(stream.current.value),", new="                            index=abs(int(stream.current.value)),"),
+         old="                            index=self._parse_index(stream.current),", new="                            index=abs(self._parse_index(stream.current)),"),
     dict(id="c01-parse-quoted-name-stripped", props=["C01", "C09"], file=PARSE,
          old="                        name=self._decode_string_literal(stream.current),\n                    ),\n                )\n            elif stream.current.type_ == TokenType.COLON:", new="                        name=self._decode_string_literal(stream.current).strip(),\n                    ),\n                )\n            elif stream.current.type_ == TokenType.COLON:"),
     dict(id="c01-parse-selectors-sorted-indices-first", props=["C01"], file=PARSE,
@@ -589,7 +589,7 @@ MUTANTS += [
     dict(id="c03-lexer-nested-paren-not-counted", props=["C03"], file=LEX,
          old="            if l.func_call_stack:\n                l.func_call_stack[-1] += 1\n            continue", new="            continue"),
     dict(id="c03-lexer-comma-in-call-ends-filter", props=["C03"], file=LEX,
-         old="            if l.func_call_stack:\n                continue\n            l.filter_depth -= 1", new="            l.filter_depth -= 1"),
+         old="            if (\n                l.func_call_stack\n                and l.bracket_stack\n                and l.bracket_stack[-1][0] == \"(\"\n            ):\n                continue\n            l.filter_depth -= 1", new="            l.filter_depth -= 1"),
     dict(id="c04-lexer-rparen-without-open", props=["C04"], file=LEX,
          old='            if not l.bracket_stack or l.bracket_stack[-1][0] != "(":\n                l.backup()\n                l.error("unbalanced parentheses")\n                return None\n\n            l.bracket_stack.pop()', new='            if l.bracket_stack:\n                l.bracket_stack.pop()'),
     dict(id="c04-lexer-rbracket-closes-paren", props=["C04"], file=LEX,
@@ -725,4 +725,15 @@ _SER_TABLE = "_ESCAPES = {codepoint: f\"\\\\u{codepoint:04x}\" for codepoint in 
 MUTANTS += [
     # the table stops one short: U+001F is written raw
     dict(id="c08-writer-translate-table-misses-1f", props=["C08", "C12"], file=S + "serialize.py", old=_SER_OLD, new=_SER_TABLE.replace("{N}", "0x1F")),
+]
+
+
+MUTANTS += [
+    # reverts of F16 / F17
+    dict(id="c03-revert-comma-in-nested-selection-fix", props=["C03"], file=S + "lex.py",
+         old="            if (\n                l.func_call_stack\n                and l.bracket_stack\n                and l.bracket_stack[-1][0] == \"(\"\n            ):\n                continue\n",
+         new="            if l.func_call_stack:\n                continue\n"),
+    dict(id="c13-revert-int-digit-limit-fix", props=["C13", "C20"], file=PARSE,
+         old="        try:\n            return int(token.value)\n        except ValueError as err:\n            # Python refuses to convert decimal strings beyond\n            # `sys.get_int_max_str_digits()` digits.\n            raise JSONPathIndexError(\"index out of range\", token=token) from err\n",
+         new="        return int(token.value)\n"),
 ]
